@@ -33,6 +33,18 @@ def logfl(lo, hi):
     return fl(math.log(lo), math.log(hi)).map(lambda t: float(math.exp(t)))
 
 
+@st.composite
+def spread(draw, lo, hi, bins=8, log=False):
+    """A float in [lo, hi] drawn bin-first: Hypothesis' float strategy puts a third of its mass next to the
+    lower bound; choosing one of `bins` equal (or log-equal) sub-ranges first flattens the distribution
+    (measured through the label histograms in the evidence files)."""
+    k = draw(st.sampled_from([(3 * i + 1) % bins for i in range(bins)] if bins % 3 else list(range(bins))))
+    a, b = (math.log(lo), math.log(hi)) if log else (lo, hi)
+    w = (b - a) / bins
+    x = draw(fl(a + k * w, a + (k + 1) * w))
+    return float(math.exp(x)) if log else float(x)
+
+
 # ---------------------------------------------------------------- profile descriptors
 
 CLOSURES = ("MOST", "MOSTM", "CONSTANT", "OAAHOC")
@@ -298,7 +310,9 @@ def source(draw, ny, nx, kinds=("delta", "sparse", "dense", "smooth"), lo=-4.0, 
             a, b = draw(st.integers(-2, 2)), draw(st.integers(-2, 2))
             ph = draw(fl(0.0, 6.28))
             q = q + draw(fl(lo, hi)) * np.cos(2 * np.pi * (a * xx + b * yy) + ph)
-    return [[float(f"{v:.12g}") for v in row] for row in q]
+    # values below 1e-6 are flushed to zero: single-precision storage (complex64) underflows below ~1e-38,
+    # an absolute floor that the relative statements of the properties do not speak about
+    return [[float(f"{v:.12g}") if abs(v) >= 1e-6 else 0.0 for v in row] for row in q]
 
 
 @st.composite
